@@ -42,12 +42,34 @@ def status_md():
             ', '.join(short) or 'none (closed)', d.get('wall_s', 0)))
     return '\n'.join(out)
 
+def counts_md():
+    import glob
+    tr = [f for f in glob.glob(os.path.join(HERE, 'translate', '*.py')) if not f.endswith('__init__.py')]
+    gen = glob.glob(os.path.join(HERE, 'coq', 'Gen', '*.v'))
+    props = set()
+    for f in glob.glob(os.path.join(HERE, 'harness', 'c[0-9][0-9].py')):
+        if 'def translate' in open(f).read():
+            props.add(os.path.basename(f)[:3].upper())
+    return '%d translator files producing %d generated Coq files, used by %d of the 20 properties: %s' % (
+        len(tr), len(gen), len(props), ', '.join(sorted(props)))
+
+def counts2_md():
+    import glob
+    nlines = 0
+    for f in glob.glob(os.path.join(HERE, 'coq', '*', '*.v')):
+        if '/Gen/' not in f:
+            nlines += sum(1 for _ in open(f))
+    nthm = 0
+    for f in glob.glob(os.path.join(HERE, 'coq', 'C*', 'Props.v')):
+        nthm += len(re.findall(r'^\s*(Theorem|Corollary)\s', open(f).read(), re.M))
+    return 'about %d 000 lines of hand-written Coq in `coq/` (20 property directories + `Base`, `Lib`; `Gen` is regenerated), %d property theorems' % (round(nlines / 1000.0), nthm)
+
 def seeds_md():
     return subprocess.check_output([os.path.join(HERE, 'tools', 'seed_table.py')], text=True)
 
 p = os.path.join(HERE, 'DESIGN.md')
 s = open(p).read()
-for name, gen in (('findings', findings_md), ('seeds', seeds_md), ('status', status_md)):
+for name, gen in (('findings', findings_md), ('seeds', seeds_md), ('status', status_md), ('counts', counts_md), ('counts2', counts2_md)):
     pat = re.compile(r'(<!-- AUTO:%s -->).*?(<!-- /AUTO:%s -->)' % (name, name), re.S)
     if pat.search(s):
         s = pat.sub(lambda m: m.group(1) + '\n' + gen() + '\n' + m.group(2), s)
